@@ -455,7 +455,12 @@ impl EventGen for Tag {
             }
             Tag::Leaf(el, tail) => {
                 let mut el = el.clone();
-                context.apply_defaults(&mut el);
+                // `<var>` and `<config>` carry settings, not graphics: a default meant for
+                // drawn elements (`<_ stroke="red"/>`) must not define a variable or be
+                // taken for a config option.
+                if !matches!(el.name.as_str(), "var" | "config") {
+                    context.apply_defaults(&mut el);
+                }
                 let (ev, bb) = el.generate_events(context)?;
                 (events, bbox) = (ev, bb);
                 if let (Some(tail), false) = (tail, events.is_empty()) {
